@@ -96,6 +96,7 @@ class Rec(object):
         self.yields = 0
         self.got = []
         self.open_ctx = []
+        self.open_ov = []
         self.outcome = None
 
 
@@ -252,6 +253,10 @@ class Env(object):
         self.delivered_multi = 0
         self.delivered_caught = 0
         self.ncands = 0
+        self.nctx_entered = 0
+        self.ctx_span_flush = 0       # flushes during which >= 2 tasks were inside a recording context
+        self.ov_span_flush = 0        # flushes during which >= 2 tasks held an override of the same value
+        self.reads_after_ov_flush = 0
 
     def v(self, clause, msg):
         if len(self.viol) < 50:
@@ -532,12 +537,17 @@ def exec_block(env, rec, me, body):
             tracked = c[0] == "rec"
             if tracked:
                 rec.open_ctx.append(c[1])
+            elif c[0] in ("ov", "attr"):
+                rec.open_ov.append((c[0], c[1]))
+            env.nctx_entered += 1
             try:
                 with ctx:
                     yield from exec_block(env, rec, me, st["body"])
             finally:
                 if tracked:
                     rec.open_ctx.remove(c[1])
+                elif c[0] in ("ov", "attr"):
+                    rec.open_ov.remove((c[0], c[1]))
         elif op == "try":
             try:
                 yield from exec_block(env, rec, me, st["body"])
@@ -563,6 +573,8 @@ def exec_block(env, rec, me, body):
                 if scheduler.get_active_task() is not me:
                     env.v("C08.active", "get_active_task() is not task %r after its synchronous call returned" % (tid,))
         elif op == "read":
+            if env.ov_span_flush:
+                env.reads_after_ov_flush += 1
             rec.got.append(["read", st["sv"], canon(env.svs[st["sv"]].get())])
         elif op == "readattr":
             rec.got.append(["readattr", st["obj"], canon(env.objs[st["obj"]].attr)])
@@ -672,6 +684,14 @@ def run_program(prog, check_c04=False, check_c06=False, reset=True, options=None
             env.v("C05.after_complete", "a batch was flushed although the awaited computation (task %r) is complete" % (target.tid,))
         if env.check_c06:
             env.check_ctx_at_flush()
+        if sum(1 for r in env.recs.values() if r.open_ctx) >= 2:
+            env.ctx_span_flush += 1
+        held = {}
+        for r in env.recs.values():
+            for k in set(r.open_ov):
+                held[k] = held.get(k, 0) + 1
+        if any(n >= 2 for n in held.values()):
+            env.ov_span_flush += 1
         if env.yield_only:
             cands = {}
             for r in list(env.recs.values()):
